@@ -920,7 +920,28 @@ class C20(Property):
         return []
 
     # ------------------------------------------------------------------ model line
+    def rejected_counted(self):
+        """probe of the live implementation, once per run: does add() count a key it then rejects? (known finding
+        C20-rejected-key-counted; the model follows the repaired code - fix ba7c963 - so while the probe says
+        yes, histories in which a key is rejected are judged by the oracle only, not compared with the model)"""
+        if not hasattr(self, '_rejected_counted'):
+            from boltons.cacheutils import ThresholdCounter
+            try:
+                tc = ThresholdCounter(threshold=0.5)
+                try:
+                    tc.add(bad_key(0))
+                except Exception:
+                    pass
+                self._rejected_counted = tc.total != 0
+            except Exception:
+                self._rejected_counted = False
+            self.stats['probe:rejected_key_counted_in_total'] = self._rejected_counted
+        return self._rejected_counted
+
     def line(self, case):
+        if self.rejected_counted() and any(op[0] == 'ax' or (op[0] == 'up' and str(self.plan(case, op)[1]).startswith('B'))
+                                           for op in case['ops']):
+            return None
         def ps(l):      # 'B' / 'S' markers (the call raises there) travel as `!`
             return ','.join('!' if isinstance(p, str) else '%d:%d' % (p[0], p[1]) for p in l) or '-'
 
@@ -1259,57 +1280,93 @@ class C20(Property):
 
     # ------------------------------------------------------------------ oracle (independent of the model)
     def call_effects(self, case, op, o, last_items):
-        """(sequence of key names the call adds in canonical order up to the point where it meets something it
-        cannot take, fail) - fail: None = the call is expected to return, 'B' = it raises inside add() on a
-        key the counter rejects, 'S' = it raises elsewhere (non-integer count, the caller's iterable raised)"""
+        """(seq, fail, asked) of one mutator: seq = the key names it adds in canonical order up to the point where it
+        meets something it cannot take; fail: None = the call is expected to return, 'B' / 'B<c>' = it raises
+        inside add() on a key the counter rejects, 'S' = it raises elsewhere (non-integer count, the caller's
+        iterable raised); asked = every valid addition the argument visibly asks for, as a Counter (whatever a
+        failing call performed before the exception is a part of that)"""
         kind = op[0]
+        none = collections.Counter()
         if kind in ('rx', 'cx'):
-            return [], 'S'
+            return [], 'S', none
         if kind == 'ax':
-            return [], 'B'
+            return [], 'B', none
         if kind in ('te', 'tk'):
-            return list(o.get('fed', [])), ('S' if o.get('raised') else None)
+            fed = list(o.get('fed', []))
+            return fed, ('S' if o.get('raised') else None), collections.Counter(fed)
         if kind == 't':
             seq = [k for k, c in last_items[op[1]] for _ in range(c)]
-            return seq, None
+            return seq, None, collections.Counter(seq)
         if kind != 'up':
             seq = ['k%d' % k for k in self.ordered_additions(case, op)]
-            return seq, None
+            return seq, None, collections.Counter(seq)
         seq, fail = self.plan(case, op)
         seq = ['k%d' % k for k in seq]
-        return seq, fail
+        if fail is None:
+            return seq, None, collections.Counter(seq)
+        # what the call got through on the code as it is, plus the valid keyword counts (an implementation may
+        # handle them before the positional argument, or although the positional argument raised)
+        asked = collections.Counter(seq)
+        kws = collections.Counter()
+        for k, c in (op[3] or []):
+            if c >= 0:
+                kws['k%d' % k] += c
+        eff = self.up_effect(case, op)
+        if eff is not None and any(isinstance(x, str) for x in eff[1]):     # the positional part raised
+            asked += kws
+        else:       # the keyword part raised: everything positional is in seq, and so are the keywords before
+            done = collections.Counter(seq)
+            pos = collections.Counter()
+            if eff is not None:
+                for it in eff[1]:
+                    if eff[0] == 'keys':
+                        pos['k%d' % it] += 1
+                    else:
+                        pos['k%d' % it[0]] += it[1]
+            asked = pos + kws
+            assert not (done - asked), (done, asked)
+        return seq, fail, asked
 
+    # A reading of one counter's history: (lo, hi, n, rej) - key k was added between lo[k] and hi[k] times, n
+    # additions took effect in all, rej rejected keys were counted in `total` on top (known finding). In a history
+    # without calls that raised part-way there is exactly one reading, lo = hi = the true counts, rej = 0.
     @staticmethod
-    def _extend(world, names, rej=0):
-        true, total, r = world
-        true = dict(true)
-        for k in names:
-            true[k] = true.get(k, 0) + 1
-        return (true, total + len(names), r + rej)
+    def _extend(world, adds, n=None, rej=0, exact=True):
+        lo, hi, total, r = world
+        hi = dict(hi)
+        for k, c in adds.items():
+            if c:
+                hi[k] = hi.get(k, 0) + c
+        if exact:
+            lo = dict(lo)
+            for k, c in adds.items():
+                if c:
+                    lo[k] = lo.get(k, 0) + c
+            n = sum(adds.values())
+        return (lo, hi, total + n, r + rej)
 
     def successors(self, case, op, o, worlds, last_items, seen_total):
         """the readings of the current counter's history after one mutator. A call that returns normally adds
-        what it was asked to. A call that met something it cannot take performed SOME PREFIX of its additions
-        before the exception (all of them up to the bad element on the code as it is; none for an
-        implementation that validates its argument first) - the statement's "number of additions" counts those.
-        A rejected KEY may in addition have been counted in `total` although nothing was stored (known finding
-        C20-rejected-key-counted: readings with rej > 0). Only readings that explain the `total` the counter
-        reports are kept (at most two per earlier reading)."""
-        seq, fail = self.call_effects(case, op, o, last_items)
+        what it was asked to. A call that met something it cannot take performed SOME of the additions it asks
+        for before the exception (all those before the bad element on the code as it is; none for an
+        implementation that validates its argument first; the keyword counts too for one that handles them in
+        another order) - the statement's "number of additions" counts those: per key between 0 and what the call
+        asks for, in all as many as the reported `total` says. A rejected KEY may in addition have been counted
+        in `total` although nothing was stored (known finding C20-rejected-key-counted: readings with rej > 0;
+        once on the code as it is, at most as often as the call asks for that key)."""
+        seq, fail, asked = self.call_effects(case, op, o, last_items)
         if fail is None:
-            return [self._extend(wd, seq) for wd in worlds]
+            return [self._extend(wd, asked) for wd in worlds]
         out = []
-        for wd in worlds:
-            # a rejected key may have been counted in total: once on the code as it is, at most as often as the
-            # call asks for it (an implementation that adds a mapping entry's count in one step)
-            rmax = int(fail[1:] or 1) if fail.startswith('B') else 0
-            cands = [(p, r) for r in range(rmax + 1) for p in range(len(seq), -1, -1)]
-            for p, r in cands:
-                if isinstance(seen_total, int) and wd[1] + wd[2] + p + r != seen_total:
-                    continue
-                out.append(self._extend(wd, seq[:p], r))
+        rmax = int(fail[1:] or 1) if fail.startswith('B') else 0
+        if isinstance(seen_total, int):
+            for wd in worlds:
+                for r in range(rmax + 1):
+                    n = seen_total - (wd[2] + wd[3]) - r
+                    if 0 <= n <= sum(asked.values()):
+                        out.append(self._extend(wd, asked, n, r, exact=False))
         if not out:     # nothing explains the reported total: judged (and reported) against the code's own reading
-            out = [self._extend(wd, seq) for wd in worlds]
+            out = [self._extend(wd, collections.Counter(seq)) for wd in worlds]
         return out
 
     def oracle(self, case, obs):
@@ -1317,10 +1374,8 @@ class C20(Property):
         w = self.w_of(case)
         ex = self.th_exact(case)
         ni = case.get('ni', 1)
-        # worlds[j]: the readings (true counts, number of additions, rejected keys counted in total) of counter
-        # j's history that explain everything observed so far; exactly one - (true, n, 0) - in a history without
-        # calls that raised part-way
-        worlds = [[({}, 0, 0)] for _ in range(ni)]
+        # worlds[j]: the readings (see _extend) of counter j's history that explain everything observed so far
+        worlds = [[({}, {}, 0, 0)] for _ in range(ni)]
         last_items = [[] for _ in range(ni)]
         cur = 0
         compactions = evicted = 0
@@ -1333,10 +1388,10 @@ class C20(Property):
                 cur = op[1]
                 continue
             if kind != 'q' and not self.dumps_after(case, opi):     # sparse case: no reader runs here
-                adds = ['k%d' % k for k in self.ordered_additions(case, op)]
-                t0 = worlds[cur][0][1]
+                adds = collections.Counter('k%d' % k for k in self.ordered_additions(case, op))
+                t0 = worlds[cur][0][2]
                 worlds[cur] = [self._extend(wd, adds) for wd in worlds[cur]]
-                compactions += (t0 + len(adds)) // w - t0 // w
+                compactions += (t0 + sum(adds.values())) // w - t0 // w
                 continue
             if oi >= len(obs):
                 return Failure('missing', 'no observation for op %r' % (op,))
@@ -1371,20 +1426,20 @@ class C20(Property):
             if len(o['d']) != ni:
                 return Failure('missing', 'dump of %d counters, expected %d' % (len(o['d']), ni))
             if kind == 'n':
-                worlds[cur] = [({}, 0, 0)]
+                worlds[cur] = [({}, {}, 0, 0)]
             else:
-                t0 = worlds[cur][0][1]
+                t0 = worlds[cur][0][2]
                 worlds[cur] = self.successors(case, op, o, worlds[cur], last_items, o['d'][cur].get('total'))
-                compactions += worlds[cur][0][1] // w - t0 // w
+                compactions += worlds[cur][0][2] // w - t0 // w
             for j in range(ni):
                 d = o['d'][j]
                 who = '' if ni == 1 else 'counter %d (op %r on counter %d): ' % (j, op, cur)
                 last_items[j] = d['items']
                 alive, fails = [], []
                 for wd in worlds[j]:
-                    f = self.judge(d, wd[0], wd[1], w, case, ex, wd[2])
+                    f = self.judge(d, wd, w, case, ex)
                     if f is None:
-                        alive.append(wd)
+                        alive.append(self.narrow(d, wd, w))
                     else:
                         fails.append(f)
                 if not alive:
@@ -1393,12 +1448,12 @@ class C20(Property):
                     f.what = who + f.what
                     return f
                 worlds[j] = alive
-                if deferred is None and all(wd[2] > 0 for wd in alive):
+                if deferred is None and all(wd[3] > 0 for wd in alive):
                     wd = alive[0]
                     deferred = Failure('rejected_total', who + 'total %d after %d additions: %d key(s) that add() then '
                                        'rejected (unhashable / __hash__ raised) were counted in total; every other clause '
-                                       'holds with total read as additions + rejected keys' % (d['total'], wd[1], wd[2]))
-                    deferred.rej = wd[2]
+                                       'holds with total read as additions + rejected keys' % (d['total'], wd[2], wd[3]))
+                    deferred.rej = wd[3]
                 if j == cur:
                     got = dict(map(tuple, d['items']))
                     evicted += sum(1 for k, t in alive[0][0].items() if got.get(k, 0) < t)
@@ -1410,10 +1465,25 @@ class C20(Property):
         self._nt = compactions > 0 and evicted > 0
         return deferred
 
-    def judge(self, o, true, total, w, case, ex, rej=0):
-        """every clause of the statement on one dump of one counter. `rej` > 0: the reading in which `rej`
-        rejected keys were counted in `total` (known finding C20-rejected-key-counted): `total` then stands for
-        additions + rej in every clause"""
+    @staticmethod
+    def narrow(o, world, w):
+        """what a dump that satisfies the statement tells about the true counts of a reading with open intervals:
+        count <= true <= count + slack now, and the true counts only move by known amounts afterwards"""
+        lo, hi, total, rej = world
+        if lo == hi:
+            return world
+        slack = (total + rej) // w
+        counts = dict((k, c) for k, c in o['items'])
+        lo2 = {k: max(lo.get(k, 0), counts.get(k, 0)) for k in hi}
+        hi2 = {k: min(h, counts.get(k, 0) + slack) for k, h in hi.items()}
+        return ({k: v for k, v in lo2.items() if v}, hi2, total, rej)
+
+    def judge(self, o, world, w, case, ex):
+        """every clause of the statement on one dump of one counter, in one reading (lo, hi, additions, rej) of
+        its history: key k's true count lies in [lo[k], hi[k]] (lo = hi unless a call raised part-way), the true
+        counts sum to `additions`. `rej` > 0: the reading in which `rej` rejected keys were counted in `total`
+        (known finding C20-rejected-key-counted): `total` then stands for additions + rej in every clause"""
+        lo, hi, total, rej = world
         th = case['th']
         if o.get('reread'):
             name = sorted(o['reread'])[0]
@@ -1422,19 +1492,30 @@ class C20(Property):
                            'result in place (nothing was added in between)' % (api, o[name], o['reread'][name]))
         if o['total'] != total + rej:
             return Failure('total', 'total %d after %d additions' % (o['total'], total))
+        additions = total
         total += rej
         slack = total // w
         counts = dict((k, c) for k, c in o['items'])
         if len(counts) != len(o['items']):
             return Failure('views', 'duplicate key in items %r' % (o['items'],))
         for k, c in counts.items():
-            t = true.get(k, 0)
+            t = hi.get(k, 0)
             if c > t:
                 return Failure('overcount', 'count[%s]=%d > true %d' % (k, c, t))
-        for k, t in true.items():
+        for k, t in lo.items():
             c = counts.get(k, 0)
             if t - c > slack:
                 return Failure('undercount', 'count[%s]=%d short of true %d by more than slack %d' % (k, c, t, slack))
+        if lo != hi:
+            # the true counts are known up to intervals only: some choice within them must add up to the additions
+            least = sum(max(lo.get(k, 0), counts.get(k, 0)) for k in hi)
+            most = sum(min(h, counts.get(k, 0) + slack) for k, h in hi.items())
+            if least > additions:
+                return Failure('overcount', 'the reported counts %r need at least %d additions, %d took effect'
+                               % (o['items'], least, additions))
+            if most < additions:
+                return Failure('undercount', 'of %d additions that took effect at most %d are accounted for by the '
+                               'reported counts %r within the slack %d' % (additions, most, o['items'], slack))
         if o['common'] + o['uncommon'] != total:
             return Failure('common_uncommon', '%d + %d != %d' % (o['common'], o['uncommon'], total))
         if o['common'] != sum(counts.values()):
